@@ -185,8 +185,8 @@ def run_one(job):
     res = {"file": file, "desc": desc}
     try:
         repo = os.path.join(d, "repo")
-        shutil.copytree("/repo", repo, ignore=shutil.ignore_patterns(".git", "docs", "examples", "__pycache__", "*.egg-info"))
-        shutil.copytree("/repo/examples", os.path.join(repo, "examples"), ignore=shutil.ignore_patterns("__pycache__", "*.xls", "*.xml"))
+        shutil.copytree("/repo", repo, ignore=shutil.ignore_patterns(".git", "docs", "__pycache__", "*.egg-info", "*.xls", "*.xml", "*.ipynb", "Machine_learning",
+                                                                    "Genetic_algorithm"))
         open(os.path.join(repo, file), "w", encoding="utf-8").write(msrc)
         env = dict(os.environ, PYTHONPATH=repo, MPLBACKEND="Agg", PYTHONDONTWRITEBYTECODE="1")
         r = subprocess.run([PY, "-W", "ignore", "-m", "pytest", "-x", "-q", "-p", "no:cacheprovider", "--timeout=600", "test"], cwd=repo, env=env,
